@@ -33,6 +33,7 @@ const verifRoot = "/verif"
 var goEnv = []string{"GOFLAGS=-mod=mod", "GOPROXY=off", "GOSUMDB=off", "GOTOOLCHAIN=local"}
 
 type runCtx struct {
+	buildDur time.Duration
 	prop, tier string
 	seed       int64
 	work       string
@@ -162,6 +163,7 @@ type childOut struct {
 	exitErr  string
 	stderr   string
 	raceLogs []string
+	dur      time.Duration
 }
 
 func (rc *runCtx) runChild(ps partSpec, shard, shards, only int, tier string) *childOut {
@@ -206,7 +208,9 @@ func (rc *runCtx) runChild(ps partSpec, shard, shards, only int, tier string) *c
 	fe, _ := os.Create(serr)
 	fo, _ := os.Create(sout)
 	cmd.Stdout, cmd.Stderr = fo, fe
+	t0 := time.Now()
 	err := cmd.Run()
+	co.dur = time.Since(t0)
 	fe.Close()
 	fo.Close()
 	if ctx.Err() != nil {
@@ -400,6 +404,8 @@ func (rc *runCtx) run(spec propSpec) int {
 	for _, p := range spec.Parts {
 		need[p.Flavour] = true
 	}
+	tb := time.Now()
+	defer func() {}()
 	for fl := range need {
 		if err := rc.build(fl); err != nil {
 			fmt.Println(err)
@@ -407,6 +413,7 @@ func (rc *runCtx) run(spec propSpec) int {
 			return 2
 		}
 	}
+	rc.buildDur = time.Since(tb)
 	var outs []*childOut
 	var mu sync.Mutex
 	sem := newWSem(16)
@@ -640,6 +647,11 @@ func (rc *runCtx) conclude(spec propSpec, outs []*childOut, writeEvidence bool) 
 		fmt.Println(err)
 		return 2
 	}
+	var pt []string
+	for _, co := range outs {
+		pt = append(pt, fmt.Sprintf("%s/%d=%.0fs", co.spec.Name, co.shard, co.dur.Seconds()))
+	}
+	fmt.Printf("parts: %s build=%.0fs\n", strings.Join(pt, " "), rc.buildDur.Seconds())
 	fmt.Printf("%s %s seed=%d: evaluations=%d distinct=%d violations=%d known=%d inconclusive=%d wall=%.1fs -> exit %d\n",
 		rc.prop, rc.tier, rc.seed, evals, distinct, len(fresh), len(knownMatched), inconclTotal, time.Since(rc.start).Seconds(), code)
 	return code
